@@ -175,7 +175,13 @@ I_Sync == \A c \in Chans :
 
 AgeSnd(s) == [s EXCEPT !.t0 = IF s.o # None \/ s.mode \in {"pairM", "lmL"} THEN Min(now - s.t0, CAP) ELSE 0]
 AgeSt(m) == IF m.ph = "VP" THEN [m EXCEPT !.at = Min(now - m.at, CAP)] ELSE m
-View == <<[c \in Chans |-> AgeSnd(snd[c])], [c \in Chans |-> AgeSt(sc[c])]>>
+View == [c \in Chans |-> <<AgeSnd(snd[c]), AgeSt(sc[c])>>]
+AgeSndP(s) == [s EXCEPT !.t0 = IF s.o # None \/ s.mode \in {"pairM", "lmL"} THEN Min(now' - s.t0, CAP) ELSE 0]
+AgeStP(m) == IF m.ph = "VP" THEN [m EXCEPT !.at = Min(now' - m.at, CAP)] ELSE m
+
+\* graph mode (ACTION_CONSTRAINT): every transition of the composed system, for the bounded-exhaustive
+\* enumeration of short sentences (all paths of the finite graph up to a number of steps)
+EmitEdge == PrintT(<<"EDGE", ToJson([p |-> View, q |-> [c \in Chans |-> <<AgeSndP(snd'[c]), AgeStP(sc'[c])>>], e |-> ev'])>>)
 
 \* generation mode: a behaviour of length MaxN is printed as one JSON array.  Every printed
 \* history is a behaviour of this specification, whichever successor the simulator goes on with.
